@@ -104,6 +104,40 @@ Fixpoint for_each {X S R} (xs : list X) (s : S)
       end
   end.
 
+(* statement sequencing: the second statement runs only when the first completed normally *)
+Definition seqc {S R} (m : res (ctl S R)) (k : S -> res (ctl S R)) : res (ctl S R) :=
+  match m with
+  | Ok (Normal s) => k s
+  | other => other
+  end.
+
+(* enumerate(xs) *)
+Fixpoint enumerate_from {X} (i : nat) (xs : list X) : list (nat * X) :=
+  match xs with
+  | [] => []
+  | x :: r => (i, x) :: enumerate_from (S i) r
+  end.
+Definition enumerate {X} (xs : list X) : list (nat * X) := enumerate_from 0 xs.
+
+(* while c: body    with explicit fuel; running out of fuel is outside the model *)
+Fixpoint while_loop {S R} (fuel : nat) (s : S) (c : S -> res bool)
+         (body : S -> res (ctl S R)) : res (ctl S R) :=
+  match fuel with
+  | O => Raise EUnmodelled
+  | Datatypes.S f =>
+      match c s with
+      | Raise e => Raise e
+      | Ok false => Ok (Normal s)
+      | Ok true =>
+          match body s with
+          | Raise e => Raise e
+          | Ok (Ret v) => Ok (Ret v)
+          | Ok (Brk s') => Ok (Normal s')
+          | Ok (Normal s') | Ok (Cont s') => while_loop f s' c body
+          end
+      end
+  end.
+
 (* "first x in xs with c x" where c may raise: models  for x in xs: if c x: return ... *)
 Fixpoint existsM {X} (c : X -> res bool) (xs : list X) : res bool :=
   match xs with
